@@ -65,12 +65,28 @@ def translate():
     j = m.group(1).strip()
     if j == 'self.shutdown.store(true, Ordering::Relaxed); self.thread .unwrap() .join() .expect("Could not join debugger thread");':
         v["join_wakes"] = False
-    elif j == ('self.shutdown.store(true, Ordering::Relaxed); let thread = self.thread.unwrap(); while !thread.is_finished() { '
-               'self.lsp.lock().unwrap().invoke_shutdown_handlers(); let _ = std::net::TcpStream::connect(("127.0.0.1", self.port)); '
-               'std::thread::sleep(std::time::Duration::from_millis(10)); } thread.join().expect("Could not join debugger thread");'):
-        v["join_wakes"] = True
     else:
-        raise ShapeError("DebugServer::join: unknown shape: %s" % j[:300])
+        mm = re.fullmatch(
+            r'self\.shutdown\.store\(true, Ordering::Relaxed\); let thread = self\.thread\.unwrap\(\); while !thread\.is_finished\(\) \{ '
+            r'(self\.lsp\.lock\(\)\.unwrap\(\)\.invoke_shutdown_handlers\(\);|if let Ok\(mut lsp\) = self\.lsp\.lock\(\) \{ lsp\.invoke_shutdown_handlers\(\); \}) '
+            r'let _ = std::net::TcpStream::connect\(\("127\.0\.0\.1", self\.port\)\); std::thread::sleep\(std::time::Duration::from_millis\(10\)\); \} '
+            r'(thread\.join\(\)\.expect\("Could not join debugger thread"\);|if thread\.join\(\)\.is_err\(\) \{ log::error!\("The debugger thread had panicked"\); \})', j)
+        if not mm:
+            raise ShapeError("DebugServer::join: unknown shape: %s" % j[:400])
+        v["join_wakes"] = True
+        v["join_tolerates_dead"] = mm.group(2).startswith("if thread.join().is_err()")
+    v.setdefault("join_tolerates_dead", False)
+    # ---- poisoned context lock on the LSP side
+    lc = re.search(r"pub fn lock_context\(&self\) -> MutexGuard<LspContext> \{ (.*?) \}", lsp)
+    hm = re.search(r"let cloned_ctx = self\.context\.clone\(\); let mut ctx = (.*?); match msg \{", lsp)
+    if not lc or not hm:
+        raise ShapeError("lsp/mod.rs: lock_context / handle_message lock not found")
+    forms = {"self.context.lock().unwrap()": False, "cloned_ctx.lock().unwrap()": False,
+             "self.context .lock() .unwrap_or_else(|poisoned| poisoned.into_inner())": True,
+             "cloned_ctx .lock() .unwrap_or_else(|poisoned| poisoned.into_inner())": True}
+    if lc.group(1).strip() not in forms or hm.group(1).strip() not in forms:
+        raise ShapeError("lsp/mod.rs: unknown way of locking the context: %s / %s" % (lc.group(1), hm.group(1)))
+    v["recovers_poison"] = forms[lc.group(1).strip()] and forms[hm.group(1).strip()]
     m = re.search(r"pub fn start\(&mut self\) -> MosResult<\(\)> \{ log::info!\(\"DebugSession listening on port \{\}\.\.\.\", self\.port\); (.*?) loop \{", dbg)
     if not m:
         raise ShapeError("DebugSession::start: prologue changed shape")
@@ -107,17 +123,23 @@ def translate():
                 n_ctx = len(re.findall(r"Arc<Mutex<LspContext>>|\.context\(\)|lsp\.clone\(\)|context\.clone\(\)", src))
                 if n_conn or n_ctx:
                     holders[rel] = (n_conn, n_ctx)
-    want = {"mos/src/commands/lsp.rs": (0, 1), "mos/src/debugger/mod.rs": (0, 6),
-            "mos/src/lsp/mod.rs": (8 if not v["unwrap_ctx"] else 7, 4)}
-    if holders != want:
-        raise ShapeError("holders of the LSP connection / context changed: %s (modelled: %s) -- a new long-lived clone keeps the stdio writer "
-                         "(or the context) alive" % (holders, want))
+    # the number of context holders only matters while start() unwraps the context; connection holders always matter
+    want_conn = {"mos/src/lsp/mod.rs": 8 if not v["unwrap_ctx"] else 7}
+    have_conn = {k: c for k, (c, _) in holders.items() if c}
+    if have_conn != want_conn:
+        raise ShapeError("holders of the LSP connection changed: %s (modelled: %s) -- a new long-lived clone of the Arc<Connection> keeps the "
+                         "stdio writer alive" % (have_conn, want_conn))
+    if v["unwrap_ctx"]:
+        want_ctx = {"mos/src/commands/lsp.rs": 1, "mos/src/debugger/mod.rs": 6, "mos/src/lsp/mod.rs": 4}
+        have_ctx = {k: c for k, (_, c) in holders.items() if c}
+        if have_ctx != want_ctx:
+            raise ShapeError("holders of the shared LSP context changed: %s (modelled: %s)" % (have_ctx, want_ctx))
     b = lambda x: "true" if x else "false"
     out = ["(* GENERATED by translate/t_life.py from mos/src/{commands/lsp.rs,lsp/mod.rs,debugger/mod.rs,debugger/connection.rs}. DO NOT EDIT. *)",
            "From Mos Require Import model.Life.",
            "Definition life_variant : variant :=",
-           "  mkVariant %s %s %s %s %s." % (b(v["unwrap_ctx"]), b(v["conn_dropped_before_join"]), b(v["join_wakes"]), b(v["select_completes"]),
-                                         b(v["register_before_accept"]))]
+           "  mkVariant %s %s %s %s %s %s %s." % (b(v["unwrap_ctx"]), b(v["conn_dropped_before_join"]), b(v["join_wakes"]), b(v["select_completes"]),
+                                               b(v["register_before_accept"]), b(v["join_tolerates_dead"]), b(v["recovers_poison"]))]
     fp = write_if_changed("LifeSites.v", "\n".join(out) + "\n")
     return {"file": "Gen/LifeSites.v", "fingerprint": fp, "variant": v, "holders": {k: list(x) for k, x in holders.items()}}
 
